@@ -3,6 +3,7 @@ package ntlmv2
 import (
 	"crypto/hmac"
 	"crypto/md5"
+	"unicode"
 )
 
 // C02 — NTLMv2 (MS-NLMP 3.3.2): an independent verifier that knows the password accepts the response.
@@ -115,4 +116,39 @@ func H_C02_v2_hashcat_verifies() {
 	ntowf := hmacMD5(nt[:], userUp16, dom16)
 	vCheck(vBytesEq(unhex(proofHex), hmacMD5(ntowf, server[:], unhex(blobHex))), "hashcat/line-verifies-against-the-password")
 	vCover("end")
+}
+
+// Non-ASCII user names: UPPER(user) is the Unicode simple case mapping applied to the text, then UTF-16LE. The executor
+// models case mapping for symbolic text only in the ASCII range, so here the user / domain names are concrete samples
+// (Latin-1, Latin Extended, a digraph whose upper case is a different code point, CJK, a supplementary-plane character)
+// while password and challenges stay symbolic.
+var c02names = []string{"müller", "šimon", "ǆon", "愛子", "a𝒷c", "Ωmega"}
+
+func H_C02_v2_unicode_names() {
+	user := c02names[vParam("name")]
+	domain := c02names[vParam("dom")]
+	pw, pw16, _ := symASCII("pw", vParam("plen"))
+	var server, client [8]byte
+	copy(server[:], vBytes("server", 8))
+	copy(client[:], vBytes("client", 8))
+	n, err := NewNTLMv2(domain, user, pw, server, client)
+	vCheck(err == nil, "v2u/constructor-ok")
+	resp, err := n.Hash()
+	vCheck(err == nil && len(resp) >= 44, "v2u/hash-ok")
+	if err != nil || len(resp) < 44 {
+		return
+	}
+	nt := refMD4(pw16)
+	ntowf := hmacMD5(nt[:], refUTF16LE(refUpper(user)), refUTF16LE([]rune(domain)))
+	vCheck(vBytesEq(resp[:16], hmacMD5(ntowf, server[:], resp[16:])), "v2u/NTProofStr-verifies-under-NTOWFv2-for-a-non-ASCII-user")
+	vCover("end")
+}
+
+// refUpper: Unicode simple upper-case mapping, rune by rune.
+func refUpper(s string) []rune {
+	out := []rune{}
+	for _, r := range s {
+		out = append(out, unicode.ToUpper(r))
+	}
+	return out
 }
